@@ -257,12 +257,29 @@ def gen(seed, scale):
             continue
         seen_tools.add(tool)
         for cut in range(0, 9):
-            damaged.append((tool, data[:cut], opts, label + ",prefix of %d bytes" % cut, "damaged"))
+            damaged.append((tool, data[:cut], opts, label + ",prefix of %d bytes" % cut, "damaged-t"))
+    # a file cut inside its last token: RAT ending in an escape run that completes the picture, MGE ending in a (count, value) pair
+    for pal in list(palettes(rnd))[:1]:
+        img = bytes(content(rnd, 199 * 160 - 40, "rand")) + bytes([0x21]) * 40
+        img = bytes(b & 0xF7 for b in img)
+        for esc in (0xFF, 0x21):
+            full = bytes([esc, 1, 0]) + bytes(pal) + enc_rat(img, esc)
+            for cutoff in (1, 2, 3):
+                damaged.append(("rattoppm", full[:-cutoff], {}, "rat/esc=%d,ends in an escape run,cut by %d" % (esc, cutoff), "damaged-t"))
+        head = bytes([0]) + bytes(pal) + bytes([0]) + bytes([0]) + (b"TITLE" + bytes(25) + bytes([0, 0]))[:32]
+        body = enc_mge(bytes(content(rnd, 32000 - 300, "runs")) + bytes([7]) * 300, rnd)
+        for cutoff in (1, 2, 3):
+            damaged.append(("mgetoppm", head + body[:-cutoff], {}, "mge/rle,cut by %d inside the last pair" % cutoff, "damaged-t"))
+    for tool, data, opts, label, fam in base:
+        if tool in ("hrstoppm", "maxtoppm", "cm3toppm", "pixtopgm") and fam in ("raw", "packed") and not any(k in opts for k in ("rows", "newsroom", "skip")) and (tool, "tail") not in seen_tools:
+            seen_tools.add((tool, "tail"))
+            for cutoff in (1, 2, 7):
+                damaged.append((tool, data[:-cutoff], opts, label + ",cut by %d at the end" % cutoff, "damaged-t"))
     # header bytes with a fixed value in the format: every other value is a damaged file
     for tool, data, opts, label, fam in base:
         if tool == "mgetoppm" and label.startswith("mge/") and "comp=0" in label:
             for v in (1, 2, 3, 0x80, 0xFF):
-                damaged.append((tool, bytes([v]) + data[1:], opts, label + ",first byte %d" % v, "damaged"))
+                damaged.append((tool, bytes([v]) + data[1:], opts, label + ",first byte %d" % v, "damaged-t"))
     # CM3: the control byte of a compressed line announces fewer mask bytes than the line's "new value" bits consume
     for which in ("last", "middle", "first-compressed"):
         pal = [rnd.randrange(64) for _ in range(16)]
@@ -289,7 +306,7 @@ def gen(seed, scale):
             for lower in (1, data[at]):
                 b = bytearray(data)
                 b[at] -= lower
-                damaged.append(("cm3toppm", bytes(b), {}, "cm3/control byte of the %s compressed line lowered by %d" % (which, lower), "damaged"))
+                damaged.append(("cm3toppm", bytes(b), {}, "cm3/control byte of the %s compressed line lowered by %d" % (which, lower), "damaged-t"))
     for n in (4, 12, 24, 40, 60, 7812, 8064, 31, 33):      # PIX sizes next to squares: (s*s-1)/2 for odd s, s*s/2 +- 1
         damaged.append(("pixtopgm", bytes(rnd.randrange(256) for _ in range(n)), {}, "pixtopgm/%d bytes (not half a square)" % n, "damaged"))
     for tool in ("hrstoppm", "rattoppm", "mgetoppm", "cm3toppm", "maxtoppm", "pixtopgm"):
@@ -347,7 +364,7 @@ def expected(ref, tool, data, opts):
     return None
 
 
-FAMILIES = {"C16": ("raw",), "C17": ("packed",), "C18": ("raw", "packed", "options"), "C19": ("raw", "packed", "options", "damaged")}
+FAMILIES = {"C16": ("raw",), "C17": ("packed",), "C18": ("raw", "packed", "options"), "C19": ("raw", "packed", "options", "damaged", "damaged-t")}
 
 
 def run(prop, rep, seed, scale=1):
@@ -367,6 +384,16 @@ def run_tool(prop, rep, tool, seed, what):
     cases = [c for c in gen(seed, 1) if c[0] == tool and c[4] in ("raw", "packed")]
     bad, counts = evaluate(prop, cases)
     rep.bounded.append(dict(check="%s/differential/%s (%s)" % (prop, tool, what), bound="%d generated files (seed %d)" % (len(cases), seed), held=not bad))
+    for b in bad[:3]:
+        rep.violation("%s/differential/%s" % (prop, b["label"]), dict(detail="bounded differential stand-in", replay=b, replay_cmd="./check %s --replay <this file>" % prop), True)
+    return len(cases), len(bad)
+
+
+def run_family(prop, rep, family, seed, what):
+    """bounded stand-in over one generated family (quick and thorough tiers)"""
+    cases = [c for c in gen(seed, 1) if c[4] == family]
+    bad, counts = evaluate(prop, cases)
+    rep.bounded.append(dict(check="%s/differential/%s (%s)" % (prop, family, what), bound="%d generated files (seed %d): %s" % (len(cases), seed, counts), held=not bad))
     for b in bad[:3]:
         rep.violation("%s/differential/%s" % (prop, b["label"]), dict(detail="bounded differential stand-in", replay=b, replay_cmd="./check %s --replay <this file>" % prop), True)
     return len(cases), len(bad)
@@ -399,7 +426,7 @@ def evaluate(prop, cases):
         if tool == "veftopng":
             e = ref.ref_vef(data)
             png = r.get("png")
-            if fam != "damaged" and prop in ("C16", "C17", "C18"):
+            if not fam.startswith("damaged") and prop in ("C16", "C17", "C18"):
                 if e is None:
                     why = "generator produced a VEF the executable specification rejects (generator defect, not a verdict)"
                 elif r["outcome"] != "return" or not png:
@@ -431,7 +458,7 @@ def evaluate(prop, cases):
                 why = "unsquash result differs from the record's definition (%s)" % (r.get("exception") or "%d vs %d bytes" % (len(got or b""), len(exp)))
         else:
             e = expected(ref, tool, data, opts)
-            if prop in ("C16", "C17") and fam != "damaged":
+            if prop in ("C16", "C17") and not fam.startswith("damaged"):
                 if e is None:
                     why = "generator produced a file the executable specification rejects (generator defect, not a verdict)"
                 elif not ok_return:
@@ -452,9 +479,9 @@ def evaluate(prop, cases):
                             why = "success reported with %d samples under a header announcing %dx%d" % (len(body), w, h)
                         elif e is not None and (w, h) != (e[0], e[1]):
                             why = "header announces %dx%d, the format/options dictate %dx%d" % (w, h, e[0], e[1])
-                        elif e is None and fam == "damaged" and prop == "C19":
+                        elif e is None and fam.startswith("damaged") and prop == "C19":
                             why = "success reported (a %dx%d picture) on a file the format definition rejects as incomplete or inconsistent" % (w, h)
-                elif prop == "C18" and e is not None and fam != "damaged":
+                elif prop == "C18" and e is not None and not fam.startswith("damaged"):
                     why = "real decoder failed on a well-formed file: %s %s" % (r["outcome"], r.get("exception") or r.get("exit_code"))
         if why:
             bad.append(dict(tool=tool, label=label, family=fam, opts=opts, input_b64=base64.b64encode(data).decode() if len(data) < 200000 else None, input_len=len(data),
